@@ -337,6 +337,9 @@ def _slice_bad(mb, fl, op, tys, depth=0):
                 continue
         if 1 <= l <= mb["arg_count"]:
             continue
+        if pl.get("p") and l in (mb.get("inlined_params") or ()):
+            # a field of an inlined helper's parameter: a leaf of its own type, as a field of a real parameter is
+            continue
         for kind, bb, d in fl.defs.get(l, []):
             if kind == "call":
                 name = callee_name(d)
